@@ -103,6 +103,9 @@ func (r *Run) execAPI(op *Op) {
 		}
 		_, err := be.PutObject(op.B, op.Key, meta, rd, size)
 		r.logf("  -> %s", errCode(err))
+		if r.faultedOut(nil, op.B, op.Key) {
+			return
+		}
 		if b == nil {
 			if errCode(err) != "NoSuchBucket" {
 				r.fail("read.absent", "Backend.PutObject into an absent bucket does not return NoSuchBucket "+r.bctx(), "NoSuchBucket", errCode(err))
@@ -219,6 +222,9 @@ func (r *Run) execAPI(op *Op) {
 	case "del":
 		_, err := be.DeleteObject(op.B, op.Key)
 		r.logf("  -> %s", errCode(err))
+		if r.faultedOut(nil, op.B, op.Key) {
+			return
+		}
 		if b == nil {
 			if errCode(err) != "NoSuchBucket" {
 				r.fail("read.absent", "Backend.DeleteObject on an absent bucket does not return NoSuchBucket "+r.bctx(), "NoSuchBucket", errCode(err))
